@@ -36,6 +36,9 @@ func init() {
 			{ID: "C14.15", Desc: "keys listed by the maintenance API survive the JSON encoding", Run: func(c *Ctx) { ruleAPIListKeysUTF8(c, "C14.15") }, MinSites: 1},
 			{ID: "C14.16", Desc: "the file namer encodes the key's own bytes", Run: func(c *Ctx) { ruleFileNameFromKeyBytes(c, "C14.16") }, MinSites: 1},
 			{ID: "C14.17", Desc: "Set does not write into the caller's value buffer (the encryptor seals into a buffer of its own)", Run: func(c *Ctx) { ruleC17_3(c); renameRule(c, "C17.3", "C14.17") }, MinSites: 1},
+			{ID: "C14.18", Desc: "the last fragment of an encoded key never carries the directory marker (keys whose encoding is a whole number of fragments)", Run: func(c *Ctx) { ruleMarkerStrictlyInside(c, "C14.18") }, MinSites: 1},
+			{ID: "C14.19", Desc: "not-exist errors are recognised through errors.Is with the error first (wrapped and joined errors of the backends)", Run: func(c *Ctx) { ruleErrorsIsOrder(c, "C14.19") }, MinSites: 1},
+			{ID: "C14.20", Desc: "no key's file name can be a temporary file's name", Run: func(c *Ctx) { ruleTempPrefixOutsideAlphabet(c, "C14.20") }, MinSites: 1},
 		},
 	})
 }
